@@ -41,7 +41,7 @@ const (
 var rfNames = []string{"none", "bitflip", "truncate+close", "truncate+fix-length", "extend", "length-field+n", "drop", "duplicate", "swap-adjacent", "replay-earlier", "cross-direction-inject", "header-type", "header-version", "fin-before-record", "fin-mid-header", "inject-cleartext-record", "cross-connection-inject"}
 
 var attackFaults = rfNames[1:]
-var attackReach = []string{"fault-on-finished", "fault-on-appdata", "fault-on-close-notify", "fatal-alert-seen", "eof-style-end", "exact-prefix-checked", "sticky-error-checked", "gm-cbc", "gm-gcm", "tls-path", "no-fault-fired", "nonce-audit", "header-bit", "iv-or-nonce-bit", "body-bit", "mac-or-tag-bit", "sweep-run", "long-session", "replay-at-distance>=255", "duplex-endpoints", "duplex-fault-while-writer-active"}
+var attackReach = []string{"fault-on-finished", "fault-on-appdata", "fault-on-close-notify", "fatal-alert-seen", "eof-style-end", "exact-prefix-checked", "sticky-error-checked", "gm-cbc", "gm-gcm", "tls-path", "no-fault-fired", "nonce-audit", "header-bit", "iv-or-nonce-bit", "body-bit", "mac-or-tag-bit", "sweep-run", "long-session", "replay-at-distance>=255", "duplex-endpoints", "duplex-fault-while-writer-active", "write-deadline-expired-at-the-victim"}
 
 func init() {
 	register(Family{Name: "tls-record-attack", Prop: "C07", ID: 701, Weight: 2, FaultNames: attackFaults, ReachNames: attackReach, Run: runRecordAttack})
@@ -69,6 +69,7 @@ type attackSession struct {
 	Writes   [2][]int // application write sizes per direction
 	Payload  [2][]byte
 	Duplex   bool             // endpoints write from a task of their own while reading
+	WDead    bool             // each endpoint lets its write deadline expire once its own writes are done: the alert a bad record calls for cannot be written
 	NetA     [2]simkit.NetCfg // client<->attacker (c2s, s2c)
 	NetB     [2]simkit.NetCfg // attacker<->server
 	Pol      simkit.Policy
@@ -141,6 +142,7 @@ func drawAttackSession(c *simkit.Choice, small bool) attackSession {
 		a.ShortRnd = c.Bool(1, 4, simkit.LScen)
 		a.DynOn = c.Bool(1, 3, simkit.LScen)
 		a.Duplex = c.Bool(1, 3, simkit.LScen)
+		a.WDead = !a.Duplex && c.Bool(1, 5, simkit.LScen)
 		for i := 0; i < 2; i++ {
 			a.NetA[i] = simkit.DrawNetCfg(c)
 			a.NetB[i] = simkit.DrawNetCfg(c)
@@ -512,7 +514,7 @@ func attackCfg(a *attackSession, s *simkit.Sim, server bool, end *attackEnd) *gm
 // endpointTask: handshake, write own payload, close-write, read to the end.
 // duplex: the writes run in a task of their own, concurrently with the reads
 // (an application with a reader and a writer goroutine).
-func attackEndpoint(s *simkit.Sim, conn *gmtls.Conn, raw *simkit.Conn, writes []int, payload, expectFromPeer []byte, end *attackEnd, duplex bool) {
+func attackEndpoint(s *simkit.Sim, conn *gmtls.Conn, raw *simkit.Conn, writes []int, payload, expectFromPeer []byte, end *attackEnd, duplex bool, wdead ...bool) {
 	end.PrefixBad = -1
 	end.HsErr = conn.Handshake()
 	if end.HsErr != nil {
@@ -539,6 +541,9 @@ func attackEndpoint(s *simkit.Sim, conn *gmtls.Conn, raw *simkit.Conn, writes []
 		wt = s.Spawn(cur.Name+"-w", cur.Node, wr)
 	} else {
 		wr()
+		if len(wdead) > 0 && wdead[0] {
+			conn.SetWriteDeadline(simkit.TimeAt(s.Now)) // nothing more to send: the write side times out from now on
+		}
 	}
 	buf := make([]byte, 20000)
 	for {
@@ -617,10 +622,10 @@ func runAttack(c *simkit.Choice, r *simkit.Rec, a *attackSession, f *recFault, s
 		c2s.foreign, s2c.foreign = fr, fr
 	}
 	s.Spawn("cli", 0, func() {
-		attackEndpoint(s, gmtls.Client(cliRaw, attackCfg(a, s, false, &ce)), cliRaw, a.Writes[0], a.Payload[0], a.Payload[1], &ce, a.Duplex)
+		attackEndpoint(s, gmtls.Client(cliRaw, attackCfg(a, s, false, &ce)), cliRaw, a.Writes[0], a.Payload[0], a.Payload[1], &ce, a.Duplex, a.WDead)
 	})
 	s.Spawn("srv", 1, func() {
-		attackEndpoint(s, gmtls.Server(srvRaw, attackCfg(a, s, true, &se)), srvRaw, a.Writes[1], a.Payload[1], a.Payload[0], &se, a.Duplex)
+		attackEndpoint(s, gmtls.Server(srvRaw, attackCfg(a, s, true, &se)), srvRaw, a.Writes[1], a.Payload[1], a.Payload[0], &se, a.Duplex, a.WDead)
 	})
 	s.Spawn("atk-c2s", 2, c2s.run)
 	s.Spawn("atk-s2c", 2, s2c.run)
@@ -632,6 +637,9 @@ func runAttack(c *simkit.Choice, r *simkit.Rec, a *attackSession, f *recFault, s
 	if f.Dir == 1 {
 		rl = s2c
 		vict, sender = &ce, &se
+	}
+	if a.WDead {
+		r.Reach(idx(attackReach, "write-deadline-expired-at-the-victim"))
 	}
 	if a.Duplex {
 		r.Reach(idx(attackReach, "duplex-endpoints"))
@@ -878,7 +886,9 @@ func runAttack(c *simkit.Choice, r *simkit.Rec, a *attackSession, f *recFault, s
 			return
 		}
 		r.Reach(idx(attackReach, "sticky-error-checked"))
-		if !fatal {
+		if !fatal && !a.WDead {
+			// (with an expired write deadline the alert cannot reach the wire; the
+			// failure must be just as final for the reader)
 			r.Violate("no-fatal-alert", site, fmt.Sprintf("victim rejected the record (%v) but sent no fatal alert", vict.ReadErr))
 			return
 		}
